@@ -291,8 +291,13 @@ def write_evidence(prop, pid, tier, seed, merged, wall, violations, extra=None):
         "wall_s": round(wall, 2),
         "violations": violations,
     }
-    os.makedirs(os.path.join(VERIF, "evidence"), exist_ok=True)
-    path = os.path.join(VERIF, "evidence", f"{pid}.json")
+    # evidence/<ID>.json describes runs against /repo itself; runs against a scratch copy (VERIF_REPO set to a
+    # mutant / seeded worktree) are kept apart so that they can never be mistaken for, or committed as, evidence
+    edir = os.path.join(VERIF, "evidence")
+    if os.path.realpath(os.environ.get("VERIF_REPO", "/repo")) != "/repo":
+        edir = os.path.join(VERIF, "evidence", ".scratch")
+    os.makedirs(edir, exist_ok=True)
+    path = os.path.join(edir, f"{pid}.json")
     tmp = path + ".tmp"
     with open(tmp, "w") as f:
         json.dump(ev, f, indent=1, sort_keys=True, default=str)
